@@ -749,6 +749,39 @@ func condWakersComplete(p *Prog, r *Report, R string, inPkg func(rel string) boo
 						why = "a path from here reaches the return at " + where + " without a wake-up on " + wi.cond
 					}
 				}
+				if !ok && fn.Parent() == nil && lowerName(fn.Name()) {
+					// a private helper that only does the growth: the wake-up follows its call
+					if node := p.CG().Nodes[fn]; node != nil {
+						sites, good := 0, true
+						for _, e := range node.In {
+							if e.Site == nil || e.Site.Common().StaticCallee() != fn {
+								good = false
+								continue
+							}
+							if _, isGo := e.Site.(*ssa.Go); isGo {
+								good = false
+								continue
+							}
+							sites++
+							var cw Sel
+							EachInstr(e.Caller.Func, func(in ssa.Instruction) {
+								if c := CallOf(in); c != nil && (CalleeIs(c, "sync", "Cond", "Broadcast") || CalleeIs(c, "sync", "Cond", "Signal")) && condKey(c.Args[0]) == wi.cond {
+									cw = append(cw, &Ev{Kind: "call", In: in, Fn: e.Caller.Func})
+								}
+							})
+							if len(cw) == 0 {
+								good = false
+								continue
+							}
+							if okc, _ := q.mustPass(e.Site, cw); !okc {
+								good = false
+							}
+						}
+						if sites > 0 && good {
+							ok = true
+						}
+					}
+				}
 				r.Check(ok, R, key, p.InstrPos(st), "followed by a wake-up on every path", p.FuncName(fn)+" adds to "+fieldKeyOf(fa)+", which "+p.FuncName(wi.fn)+" waits for, but "+why+": the waiter stays parked although there is work for it")
 			}
 		}
